@@ -523,13 +523,14 @@ class Key(metaclass=InlineDocstring):
                 raise ValueError('Signature is invalid.')
         # P256
         elif self.curve == b'p2':
-            pk = fastecdsa.encoding.sec1.SEC1Encoder.decode_public_key(  # type: ignore
-                self.public_point, curve=fastecdsa.curve.P256
-            )
             r, s = bytes_to_int(decoded_signature[:32]), bytes_to_int(decoded_signature[32:])
             try:
+                pk = fastecdsa.encoding.sec1.SEC1Encoder.decode_public_key(  # type: ignore
+                    self.public_point, curve=fastecdsa.curve.P256
+                )
                 valid = fastecdsa.ecdsa.verify(sig=(r, s), msg=encoded_message, Q=pk, hashfunc=blake2b_32)  # type: ignore
-            except fastecdsa.ecdsa.EcdsaError as exc:  # r or s outside [1, q)
+            except (fastecdsa.ecdsa.EcdsaError, fastecdsa.encoding.sec1.InvalidSEC1PublicKey) as exc:
+                # r or s outside [1, q), or a public key that is not a SEC1 point encoding
                 raise ValueError('Signature is invalid.') from exc
             if not valid:
                 raise ValueError('Signature is invalid.')
